@@ -19,10 +19,12 @@ def main():
     ap.add_argument("--tier", default="quick")
     ap.add_argument("--keep", action="store_true")
     ap.add_argument("--seeds", default="1")
+    ap.add_argument("--root", default="seeded", help="'benign' for changes that keep every property (every check must stay silent)")
     a = ap.parse_args()
-    sdir = os.path.join(VERIF, "seeded", a.name)
+    sdir = os.path.join(VERIF, a.root, a.name)
     meta = json.load(open(os.path.join(sdir, "meta.json")))
-    checks = a.checks.split(",") if a.checks else [meta["property"]]
+    ALL = ["C%02d" % i for i in range(1, 21)]
+    checks = ALL if a.checks == "all" else a.checks.split(",") if a.checks else [meta["property"]]
     wt = "/var/tmp/seedrun-%s" % a.name
     sh(["git", "-C", "/repo", "worktree", "remove", "--force", wt])
     r = sh(["git", "-C", "/repo", "worktree", "add", "--detach", wt, "HEAD"])
@@ -52,6 +54,8 @@ def main():
             for d in ("build-", "hbin-", "evidence-", "replays-"):
                 shutil.rmtree(os.path.join(VERIF, ".work", d + alt), ignore_errors=True)
     json.dump(results, open(os.path.join(sdir, "last_run.json"), "w"), indent=1)
+    if a.root == "benign":
+        return 0 if all(v["rc"] == 0 for v in results.values()) else 1
     return 0 if any(v["rc"] == 1 for v in results.values()) else 1
 
 
